@@ -464,3 +464,39 @@ pub proof fn lemma_vok_node<P: Prefix, T>(t: Seq<Node<P, T>>, i: usize)
     ensures v_ok(t, ViewLoc::<P>::Node(i)), vidx(ViewLoc::<P>::Node(i)) == i, vbits(t, ViewLoc::<P>::Node(i)) == kb(t, i as int)
 {
 }
+
+// ---- Result-returning twins of TrieViewMut ----
+
+pub open spec fn mloc<'a, P, T>(r: Result<TrieViewMut<'a, P, T>, TrieViewMut<'a, P, T>>) -> Option<ViewLoc<P>> {
+    match r { Ok(v) => Some(v.loc), Err(_) => None }
+}
+
+/// on failure the original view is handed back unchanged
+pub open spec fn err_same<'a, P, T>(r: Result<TrieViewMut<'a, P, T>, TrieViewMut<'a, P, T>>, table: &'a Table<P, T>, loc: ViewLoc<P>) -> bool {
+    match r { Ok(v) => v.table == table, Err(v) => v.table == table && v.loc == loc }
+}
+
+/// a side either is empty or is addressed by a view, never both
+pub proof fn lemma_side_excl<P: Prefix, T>(t: Seq<Node<P, T>>, loc: ViewLoc<P>, s: bool)
+    requires v_ok(t, loc)
+    ensures
+        (loc is Node && chd(t, vidx(loc), s).is_some()) ==> !side_spec::<P, T>(t, loc, s, None),
+        (loc is Virtual && kb(t, vidx(loc))[vbits(t, loc).len() as int] == s) ==> !side_spec::<P, T>(t, loc, s, None),
+{
+    reveal(side_spec);
+    let live = tlive(t);
+    lemma_twf(t);
+    let x = vbits(t, loc);
+    if loc is Node && chd(t, vidx(loc), s).is_some() {
+        lemma_pre_refl(kb(t, vidx(loc)));
+        lemma_step(t, live, vidx(loc), kb(t, vidx(loc)));
+        let c = chd(t, vidx(loc), s).unwrap() as int;
+        assert(in_view(t, loc, c) && spre(x, kb(t, c)) && kb(t, c)[x.len() as int] == s);
+    }
+    if loc is Virtual && kb(t, vidx(loc))[x.len() as int] == s {
+        let i = vidx(loc);
+        lemma_view_region(t, loc, i);
+        lemma_pre_refl(kb(t, i));
+        assert(in_view(t, loc, i) && spre(x, kb(t, i)) && kb(t, i)[x.len() as int] == s);
+    }
+}
